@@ -1187,3 +1187,70 @@ pub fn client_send_failure_reports_cause() -> Value {
 	}
 	json!({"probe":"client_send_failure_reports_cause","disagrees":false,"histories_tried":5})
 }
+
+// ------------------------------------------------------------------------------------------
+/// C16: reading params element by element agrees with a plain JSON parse; failures are -32602 and poison the sequence.
+pub fn params_sequence_agrees_with_parse() -> Value {
+	use jsonrpsee_types::Params;
+	let elems = ["1", "-2.5e3", "true", "null", "\"a,b]\"", "\"\\\"q\\\"\"", "[10, 20]", "[[1],[2,[3]]]", "{\"k\":[1,2],\"z\":\"]\"}", "\"\\u00e9\\n\"", "[]", "{}"];
+	let seps = [",", " , ", ",\n", "\r\n,\r\n", "\t,\t", " ,\r"];
+	let opens = ["[", "[ ", "[\r\n  ", "[\n"];
+	let closes = ["]", " ]", "\r\n]", "\n ]"];
+	let mut tried = 0u64;
+	let fail = |input: &str, obs: String, exp: String| json!({"probe":"params_sequence_agrees_with_parse","disagrees":true,"input":input,"observed":obs,"expected":exp});
+	for n in 0..=3usize {
+		for start in 0..elems.len() {
+			for (si, sep) in seps.iter().enumerate() {
+				let (open, close) = (opens[(start + si) % opens.len()], closes[(start + 2 * si) % closes.len()]);
+				let chosen: Vec<&str> = (0..n).map(|k| elems[(start + 5 * k) % elems.len()]).collect();
+				let text = format!("{open}{}{close}", chosen.join(sep));
+				let full: Vec<Value> = match serde_json::from_str(&text) { Ok(v) => v, Err(_) => continue };
+				tried += 1;
+				let p = Params::new(Some(&text));
+				let mut seq = p.sequence();
+				for (i, want) in full.iter().enumerate() {
+					match seq.next::<Value>() {
+						Ok(v) if &v == want => {}
+						other => return fail(&text, format!("element {i}: {:?}", other.map_err(|e| e.code())), want.to_string()),
+					}
+				}
+				if let Ok(v) = seq.next::<Value>() {
+					return fail(&text, format!("a read past the end yielded {v}"), "exhaustion (error -32602 'No more params')".into());
+				}
+				match seq.optional_next::<Value>() {
+					Ok(None) => {}
+					other => return fail(&text, format!("optional read past the end: {:?}", other.map_err(|e| e.code())), "Ok(None)".into()),
+				}
+				// whole-value parsing agrees
+				if p.parse::<Vec<Value>>().ok().as_ref() != Some(&full) {
+					return fail(&text, "Params::parse disagrees with serde_json::from_str".into(), format!("{:?}", full));
+				}
+				// a typed mismatch: -32602, and afterwards only errors or `absent` — never an element from another position
+				if n >= 1 {
+					let mut seq = p.sequence();
+					let first_is_bool = full[0].is_boolean();
+					if !first_is_bool {
+						match seq.next::<bool>() {
+							Err(e) if e.code() == -32602 => {}
+							other => return fail(&text, format!("next::<bool>() on a non-bool first element: {:?}", other.map_err(|e| e.code())), "Err(-32602)".into()),
+						}
+						for _ in 0..4 {
+							if let Ok(v) = seq.next::<Value>() {
+								return fail(&text, format!("after a failed read a later read yielded {v}"), "only errors or 'absent' after a failed read".into());
+							}
+							if let Ok(Some(v)) = seq.optional_next::<Value>() {
+								return fail(&text, format!("after a failed read a later optional read yielded {v}"), "only errors or 'absent' after a failed read".into());
+							}
+						}
+					}
+				}
+			}
+		}
+	}
+	// absent params behave as null / the empty array
+	let absent = Params::new(None);
+	if absent.sequence().next::<Value>().is_ok() || absent.parse::<Option<u8>>().ok() != Some(None) {
+		return fail("absent params", "not treated as null / empty".into(), "null / empty array".into());
+	}
+	json!({"probe":"params_sequence_agrees_with_parse","disagrees":false,"inputs_tried":tried,"bound":"arrays of 0..3 elements from 12 element texts x 6 separators x 4 open/close spellings (incl. CRLF)"})
+}
